@@ -114,7 +114,10 @@ fn judge(base: Option<&RunOut>, out: &RunOut, f: &Faults) -> Vec<(Json, String)>
         if !f.kinds().is_empty() && b.panic.is_none() {
             let got = innermost(&out.result).to_string();
             let base_kind = innermost(&b.result).to_string();
-            if got != base_kind && !f.allowed().contains(&got.as_str()) {
+            // a host function that swallows its callee's failure (try0) may have swallowed the
+            // fault's error: what the program does afterwards is its own business
+            let swallowed_more = out.host_swallowed_kinds != b.host_swallowed_kinds;
+            if got != base_kind && !f.allowed().contains(&got.as_str()) && !swallowed_more {
                 v.push((
                     json!({"phase": "run", "kind": "wrong-error-for-fault", "got": got}),
                     format!(
@@ -435,7 +438,7 @@ impl Check for C04 {
     fn assumptions(&self) -> Vec<String> {
         vec![
             "a hang is detected by the per-case watchdog (backstop) and, for loops that dispatch instructions, by the controller's dispatch bound; probe loops of the containers are bounded by hook H7".into(),
-            "for an injected resource fault the accepted outcomes are the matching error kind (possibly wrapped in TaskFailure) or the fault-free outcome".into(),
+            "for an injected resource fault the accepted outcomes are the matching error kind (possibly wrapped in TaskFailure) or the fault-free outcome; when the try0 host stub swallowed other callee failures than in the fault-free run, any clean outcome is accepted (panics, crashes, hangs and budget overruns are still judged)".into(),
             "the compile half is seeded input search without a fault dimension".into(),
             "crashes of the worker process (signals) are attributed to the case in flight".into(),
         ]
